@@ -277,8 +277,26 @@ def main(argv=None):
         cov.update(evaluations=n_ob, distinct_nontrivial=len({ob_class(r['name']) for r in pv['obligations']}),
                    rule='one evaluation = one verification condition; distinct = obligation classes',
                    samples=[r['name'] for r in pv['obligations'][:5]] or ['-'])
+    # mechanical scan: assumptions that family hooks add to a path (instances of trusted lemmas, models of library objects)
+    sites = []
+    try:
+        from pvf.pyvc.run import FAMILIES
+        import importlib, inspect, re as _re
+        for fam in prop.get('families', []):
+            mod = importlib.import_module(FAMILIES.get(fam, fam))
+            for m in [mod] + [v for v in vars(mod).values() if inspect.ismodule(v) and v.__name__.startswith('pvf.contracts')]:
+                try:
+                    src = inspect.getsource(m)
+                except Exception:      # noqa
+                    continue
+                n = len(_re.findall(r'\bI2?\.assume\(', src))
+                if n:
+                    sites.append('%s: %d assume() sites in hooks' % (m.__name__, n))
+    except Exception:      # noqa
+        pass
     ev = dict(property_id=pid, tier=tier, seed=seed, level=level, coverage=cov,
-              assumptions=sorted(set(pv['assumptions'])) + ['trusted: %s - %s' % (t['name'], t['note']) for t in pv['trusted']],
+              assumptions=sorted(set(pv['assumptions'])) + ['trusted: %s - %s' % (t['name'], t['note']) for t in pv['trusted']] +
+                          ['hook-level assumptions (scan): ' + s_ for s_ in sorted(set(sites))],
               wall_s=round(time.time() - t0, 2), violations=len(violations))
     os.makedirs(os.path.join(VERIF, 'evidence'), exist_ok=True)
     with open(os.path.join(VERIF, 'evidence', pid + '.json'), 'w') as f:
